@@ -21,7 +21,9 @@ import sys
 
 REPO = os.environ.get("VERIF_REPO", "/repo")
 ROOT = os.path.dirname(os.path.dirname(os.path.dirname(os.path.abspath(__file__))))
-OUT = os.path.join(ROOT, "coq", "theories", "gen", "CliTable.v")
+# VERIF_CLI_TABLE_OUT: write somewhere else (used by tools/props/c19.py to detect a table regenerated concurrently
+# from another repository path)
+OUT = os.environ.get("VERIF_CLI_TABLE_OUT") or os.path.join(ROOT, "coq", "theories", "gen", "CliTable.v")
 
 
 class Bad(Exception):
